@@ -55,6 +55,16 @@ fn general_handler(frame: InterruptStackFrame, index: u8, error_code: Option<u64
     }
 }
 
+extern "C" {
+    static __executable_start: u8;
+    static etext: u8;
+}
+/// independent sanity of a gate offset before jumping to it: it must lie in the text segment
+fn is_code_address(a: u64) -> bool {
+    let (lo, hi) = unsafe { (&__executable_start as *const u8 as u64, &etext as *const u8 as u64) };
+    a >= lo && a < hi
+}
+
 fn raw(idt: &InterruptDescriptorTable) -> &[[u8; 16]; 256] {
     unsafe { &*(idt as *const _ as *const [[u8; 16]; 256]) }
 }
@@ -129,6 +139,55 @@ fn ranges_case(lo: &u8, obs: &mut Obs) -> CaseResult {
     Ok(())
 }
 
+/// all (lo,hi) pairs through the exclusive form lo..hi, all nine (Bound,Bound) kind combinations and lo..
+fn other_forms_exhaustive(lo: &u8, obs: &mut Obs) -> CaseResult {
+    let lo = *lo;
+    let l = lo as usize;
+    let mk = |k: u8, x: u8| match k % 3 {
+        0 => Bound::Included(x),
+        1 => Bound::Excluded(x),
+        _ => Bound::Unbounded,
+    };
+    let mut n = 0u64;
+    for hi in 0u16..256 {
+        let hi = hi as u8;
+        let h = hi as usize;
+        let mut idt = Box::new(InterruptDescriptorTable::new());
+        install_excl(&mut idt, lo, hi);
+        check_installed(&idt, |v| v >= l && v < h, None, &format!("set_general_handler!(.., {}..{})", lo, hi))?;
+        n += 1;
+        for k1 in 0..3u8 {
+            for k2 in 0..3u8 {
+                if (k1 == 2 && lo != 0) || (k2 == 2 && hi != 0) {
+                    continue; // Unbounded ignores the value: evaluate once
+                }
+                let (bl, bh) = (mk(k1, lo), mk(k2, hi));
+                let mut idt = Box::new(InterruptDescriptorTable::new());
+                install_bounds(&mut idt, bl, bh);
+                let inr = |v: usize| {
+                    (match bl {
+                        Bound::Included(x) => v >= x as usize,
+                        Bound::Excluded(x) => v > x as usize,
+                        Bound::Unbounded => true,
+                    }) && (match bh {
+                        Bound::Included(x) => v <= x as usize,
+                        Bound::Excluded(x) => v < x as usize,
+                        Bound::Unbounded => true,
+                    })
+                };
+                check_installed(&idt, inr, None, &format!("set_general_handler!(.., ({:?}, {:?}))", bl, bh))?;
+                n += 1;
+            }
+        }
+    }
+    let mut idt = Box::new(InterruptDescriptorTable::new());
+    install_from(&mut idt, lo);
+    check_installed(&idt, |v| v >= l, None, &format!("set_general_handler!(.., {}..)", lo))?;
+    obs.add_evals(n + 1);
+    obs.nontrivial(&lo);
+    Ok(())
+}
+
 fn forms_case(c: &(u8, u8, u8, u8, u8), obs: &mut Obs) -> CaseResult {
     let (form, lo, hi, k1, k2) = *c;
     let mut idt = Box::new(InterruptDescriptorTable::new());
@@ -189,6 +248,7 @@ fn delivery_case(c: &(u8, u64, u32, u64, bool), obs: &mut Obs) -> CaseResult {
     }
     ensure!(present(&e), "vector {} not present in a full installation", v);
     let handler = handler_of(&e);
+    ensure!(is_code_address(handler), "vector {}: the handler address {:#x} decoded from the raw entry does not point into the program's code", v, handler);
     let (lo, hi) = deliver::scratch_stack();
     // interrupted stack pointer: anywhere (any alignment) in the upper quarter of the scratch stack
     let frame_rsp = hi - 64 - (rsp_off as u64 % ((hi - lo) / 4));
@@ -275,6 +335,13 @@ pub fn run(run: &mut Run) {
         "all 65536 (lo,hi) pairs through set_general_handler!(idt, h, lo..=hi) on a fresh table (one case per lo, each worker a residue class): exactly the non-reserved vectors (reserved = 15, 22-27, 31) inside the range become present and equal the entry the same macro site installs for 0..=255; every other entry is byte-identical to Entry::missing()",
         los,
         ranges_case,
+    );
+    let los2: Vec<u8> = (0u16..256).filter(|a| (*a as u32) % ws == w).map(|a| a as u8).collect();
+    run.exhaustive(
+        "other_forms",
+        "all 65536 (lo,hi) pairs through lo..hi, through (Bound,Bound) with all nine Included/Excluded/Unbounded combinations (empty and saturating corner cases such as 0..0 and (Excluded(255), Unbounded) included) and all 256 lo.. ; same oracle as 'ranges'; one case per lo, each worker a residue class",
+        los2,
+        other_forms_exhaustive,
     );
     run.worker = keep;
     let n = run.cases(3_000, 100_000);
